@@ -545,10 +545,10 @@ func runBatch(r *core.Run, in batchIn) (*batchOut, error) {
 		in.Workers = 4
 	}
 	if in.SlowWallSec == 0 {
-		in.SlowWallSec = 5
+		in.SlowWallSec = 20
 	}
 	if in.HangWallSec == 0 {
-		in.HangWallSec = 90
+		in.HangWallSec = 600
 	}
 	j, err := openJournal(in.Journal, in.Workers)
 	if err != nil {
@@ -894,7 +894,8 @@ type soloVerdict struct {
 	Out     soloOut
 	Crashed bool
 	Stderr  string
-	Killed  bool    // killed at the CPU / wall limit
+	Killed  bool    // killed at the CPU limit or because it stalled
+	Stalled bool    // ... no CPU progress for stallLimit seconds of wall-clock time
 	CPUSec  float64 // measured by the parent for the whole process
 	WallSec float64
 	Infra   string
@@ -924,8 +925,8 @@ func procCPU(pid int) float64 {
 var soloCounter int64
 
 // solo runs one evaluation in its own process; the process is killed when it has used cpuLimit
-// seconds of CPU or wallLimit seconds of wall-clock time
-func solo(r *core.Run, in soloIn, cpuLimit, wallLimit float64) soloVerdict {
+// seconds of CPU or has not used any CPU for stallLimit seconds of wall-clock time
+func solo(r *core.Run, in soloIn, cpuLimit, stallLimit float64) soloVerdict {
 	n := atomic.AddInt64(&soloCounter, 1)
 	in.Dir = filepath.Join(r.Scratch, fmt.Sprintf("solo-%d", n))
 	inFile := filepath.Join(r.Scratch, fmt.Sprintf("solo-%d.in.json", n))
@@ -937,7 +938,8 @@ func solo(r *core.Run, in soloIn, cpuLimit, wallLimit float64) soloVerdict {
 	os.WriteFile(inFile, b, 0644)
 	exe, _ := os.Executable()
 	cmd := exec.Command(exe, "--child", "c16.solo", inFile, outFile, r.ID, r.Tier, fmt.Sprint(r.Seed))
-	cmd.Env = append(os.Environ(), "TMPDIR="+r.Scratch)
+	// one OS thread: the CPU time of the process is then the time one core needs, whatever the machine load
+	cmd.Env = append(os.Environ(), "TMPDIR="+r.Scratch, "GOMAXPROCS=1")
 	var stderr strings.Builder
 	cmd.Stderr, cmd.Stdout = &stderr, &stderr
 	v := soloVerdict{}
@@ -950,6 +952,7 @@ func solo(r *core.Run, in soloIn, cpuLimit, wallLimit float64) soloVerdict {
 	go func() { done <- cmd.Wait() }()
 	tick := time.NewTicker(100 * time.Millisecond)
 	defer tick.Stop()
+	lastCPU, lastProgress := 0.0, time.Now()
 loop:
 	for {
 		select {
@@ -960,7 +963,12 @@ loop:
 			if cpu > v.CPUSec {
 				v.CPUSec = cpu
 			}
-			if cpu > cpuLimit || time.Since(start).Seconds() > wallLimit {
+			if cpu > lastCPU+0.05 {
+				lastCPU, lastProgress = cpu, time.Now()
+			}
+			// killed at the CPU limit, or when the process has made no progress for stallLimit seconds
+			if cpu > cpuLimit || time.Since(lastProgress).Seconds() > stallLimit {
+				v.Stalled = cpu <= cpuLimit
 				cmd.Process.Kill()
 				<-done
 				v.Killed = true
